@@ -119,6 +119,8 @@ func bigRingShapes(cfg2 *geometry.IndexOptions) []*shp {
 		d := &shp{E: &exact.Shape{Kind: exact.KPoly, Ext: densify(br.ring, 70)}}
 		d.G = geomOf(d.E, ident, nil) // default options: quadtree at >= 64 points
 		d.G2 = geomOf(d.E, ident, idxCfgs[1].Opts)
+		d.G3 = movedBack(d.E)
+		d.G4 = geomOf(d.E, tinyXf, idxNone)
 		d.tag = br.name + "-dense"
 		out = append(out, d)
 		h := mkShp(&exact.Shape{Kind: exact.KPoly, Ext: frame, Holes: [][]exact.P{br.ring}}, cfg2)
